@@ -122,3 +122,108 @@ def transition(F, f, field_q, enum_q):
     if body is None or not en:
         raise Unknown('no body / enum')
     return {e['n']: _run(body, e['n'], field_q, enum_q)[0] for e in en['enumerators']}
+
+
+def dispatch_effects(F, f, is_subject, enum_q, effect_of):
+    """For a function that dispatches on an enum-valued subject expression (switch or if/else-if chain, any nesting): the list of
+    effects (effect_of(call) for every call statement met) executed for each enumerator.  Conditions that do not mention the subject
+    must not guard any effect (Unknown otherwise)."""
+    en = F.enums.get(enum_q)
+    body = next((n for n in f.walk() if n.get('k') == 'Compound'), None)
+    if not en or body is None:
+        raise Unknown('no body / enum')
+
+    def subj(e):
+        e = _strip(e)
+        return e is not None and is_subject(e)
+
+    def cond(e, cur):
+        e = _strip(e)
+        k = e.get('k')
+        if k == 'Bin' and e.get('op') in ('&&', '||'):
+            a, b = cond(e['c'][0], cur), cond(e['c'][1], cur)
+            return (a and b) if e['op'] == '&&' else (a or b)
+        if k == 'Un' and e.get('op') == '!':
+            return not cond(e['c'][0], cur)
+        if (k == 'Bin' and e.get('op') in ('==', '!=')) or (k == 'Call' and e.get('opc') in ('==', '!=')):
+            op = e.get('op') or e.get('opc')
+            l, r = e['c'][0], e['c'][1]
+            for x, y in ((l, r), (r, l)):
+                if subj(x) and _enum(y, enum_q):
+                    eq = (_enum(y, enum_q) == cur)
+                    return eq if op == '==' else not eq
+        raise Unknown('condition `%s`' % render(e)[:60])
+
+    def has_effect(st):
+        return any(c.get('k') == 'Call' and effect_of(c) is not None for c in walk(st))
+
+    def run(st, cur, out):
+        if st is None:
+            return 'next'
+        k = st.get('k')
+        c = st.get('c', [])
+        if k == 'Compound':
+            for x in c:
+                fl = run(x, cur, out)
+                if fl != 'next':
+                    return fl
+            return 'next'
+        if k == 'If':
+            try:
+                v = cond(role(st, 'cond'), cur)
+            except Unknown:
+                if has_effect(st):
+                    raise
+                return 'next'
+            return run(role(st, 'then') if v else role(st, 'else'), cur, out)
+        if k == 'Switch':
+            if not subj(role(st, 'cond')):
+                if has_effect(st):
+                    raise Unknown('switch on something else than the subject')
+                return 'next'
+            body_ = role(st, 'body')
+            items = body_.get('c', []) if body_.get('k') == 'Compound' else [body_]
+            start = default = None
+            for i, it in enumerate(items):
+                x = it
+                while x is not None and x.get('k') in ('Case', 'Default'):
+                    if x.get('k') == 'Case' and _enum(role(x, 'val'), enum_q) == cur and start is None:
+                        start = i
+                    if x.get('k') == 'Default':
+                        default = i
+                    x = role(x, 'sub')
+            if start is None:
+                start = default
+            if start is None:
+                return 'next'
+            for it in items[start:]:
+                x = it
+                while x is not None and x.get('k') in ('Case', 'Default'):
+                    x = role(x, 'sub')
+                fl = run(x, cur, out)
+                if fl == 'break':
+                    return 'next'
+                if fl == 'return':
+                    return 'return'
+            return 'next'
+        if k == 'Break':
+            return 'break'
+        if k == 'Return':
+            for x in walk(st):
+                if x.get('k') == 'Call' and effect_of(x) is not None:
+                    out.append(effect_of(x))
+            return 'return'
+        if k in ('For', 'While', 'Do', 'RangeFor'):
+            if has_effect(st):
+                raise Unknown('effect inside a loop')
+            return 'next'
+        for x in walk(st):
+            if x.get('k') == 'Call' and effect_of(x) is not None:
+                out.append(effect_of(x))
+        return 'next'
+    res = {}
+    for e in en['enumerators']:
+        out = []
+        run(body, e['n'], out)
+        res[e['n']] = out
+    return res
